@@ -137,6 +137,53 @@ def gen_scenario(seed):
     return {"seed": seed, "style": "plain", "file_opts": {}, "steps": steps, "tags": sorted(set(tags))}
 
 
+def regression_scenarios():
+    """Deterministic histories for the two repaired split defects (run on every check, before the generated ones):
+    a commit made while the working tree holds an unstaged deletion / growing replacement above a staged AI
+    line (O2), and an agent's line staged and then modified again by the agent before the commit."""
+    out = []
+
+    def mk(name, build):
+        w = S.World()
+        base = [w.fresh(t, None) for t in ("alpha one", "beta two", "gamma three")]
+        steps = [{"op": "edit", "who": "human", "path": "f1.txt", "lines": [list(l) for l in base]}, {"op": "commit", "msg": "base"}]
+        build(w, base, steps)
+        steps.append({"op": "commit", "msg": "rest"})
+        out.append({"seed": name, "style": "plain", "file_opts": {}, "steps": steps, "tags": ["regression=" + name], "no_sys_tie": True})
+
+    def ai_edit(steps, lines, kind):
+        steps.append({"op": "human_checkpoint", "paths": ["f1.txt"]})
+        steps.append({"op": "edit", "who": "s1", "path": "f1.txt", "kind": kind, "lines": [list(l) for l in lines]})
+
+    def o2_delete(w, base, steps):
+        cur = base + [w.fresh("agent line AIX", "s1")]
+        ai_edit(steps, cur, "append")
+        steps.append({"op": "stage_content", "path": "f1.txt", "lines": [list(l) for l in cur]})
+        steps.append({"op": "edit", "who": "human", "path": "f1.txt", "kind": "delete", "lines": [list(l) for l in cur[1:]]})
+        steps.append({"op": "commit", "msg": "staged only", "add": "none"})
+
+    def o2_grow(w, base, steps):
+        cur = base + [w.fresh("agent line AIX", "s1")]
+        ai_edit(steps, cur, "append")
+        steps.append({"op": "stage_content", "path": "f1.txt", "lines": [list(l) for l in cur]})
+        grown = [w.fresh("person rewrote one", None), w.fresh("person added more", None)] + cur[1:]
+        steps.append({"op": "edit", "who": "human", "path": "f1.txt", "kind": "replace", "lines": [list(l) for l in grown]})
+        steps.append({"op": "commit", "msg": "staged only", "add": "none"})
+
+    def modified_again(w, base, steps):
+        v1 = [base[0], w.fresh("agent version one", "s1"), base[2]]
+        ai_edit(steps, v1, "replace")
+        steps.append({"op": "stage_content", "path": "f1.txt", "lines": [list(l) for l in v1]})
+        v2 = [base[0], w.fresh("agent version two", "s1"), base[2]]
+        ai_edit(steps, v2, "replace")
+        steps.append({"op": "commit", "msg": "staged only", "add": "none"})
+
+    mk("unstaged-deletion-above-staged-ai-line", o2_delete)
+    mk("unstaged-growing-replacement-above-staged-ai-line", o2_grow)
+    mk("staged-ai-line-modified-again-by-the-agent", modified_again)
+    return out
+
+
 def unstaged_non_insertion_above_ai(committed, work):
     """The working tree differs from the committed version in a region that removes or replaces
     committed lines (not a pure insertion) and an AI line sits below that region — the family of the
@@ -232,7 +279,10 @@ def sys_tie(res, scs):
     for files outside the two known-finding families (which the model idealises away / mirrors)"""
     ncmp, nbad, first = 0, 0, None
     for sc in scs:
-        if "_observed" not in sc:
+        if "_observed" not in sc or sc.get("no_sys_tie"):
+            # the history-level model has no op for "staged, then modified again": the regression histories are
+            # checked by the ghost oracle and the Split3 correspondence only
+            sc.pop("_observed", None)
             continue
         n2, bad2 = S.sys_compare(sc, sc.pop("_observed"), C.run_driver, skip_paths=sc.pop("_skip", []), commit_ok=sc.pop("_commit_ok", None))
         ncmp += n2; nbad += len(bad2)
@@ -245,10 +295,10 @@ def sys_tie(res, scs):
         res.broken_tie("correspondence:sys-e2e", {"disagreements": nbad, "of": ncmp, "first": first})
 
 
-def phase_e2e(res, seeds, threads=16):
-    scs = [gen_scenario(s) for s in seeds]
+def phase_e2e(res, seeds, threads=16, fixed=()):
+    scs = list(fixed) + [gen_scenario(s) for s in seeds]
     for k, sc in enumerate(scs):
-        sc["correspond"] = (k % 2 == 0)     # half the scenarios also feed the Split3 correspondence
+        sc["correspond"] = (k % 2 == 0) or bool(sc.get("no_sys_tie"))     # half the generated scenarios also feed the Split3 correspondence
     with concurrent.futures.ThreadPoolExecutor(threads) as ex:
         outs = list(ex.map(run_scenario, scs))
     all_corr = [c for (_, _, corr) in outs for c in corr]
@@ -294,7 +344,7 @@ def run(tier, seed):
         # tie broken (model ≠ code): search the real translation for a mistranslated line on more scripts
         C.phase_suite(res, "split3", seed + 7919, 40000, name="search:split3 (ground-truth oracle on 40000 more edit scripts)")
     nsc = 128 if tier == "quick" else 2400
-    phase_e2e(res, [seed * 100000 + i for i in range(nsc)])
+    phase_e2e(res, [seed * 100000 + i for i in range(nsc)], fixed=regression_scenarios())
     if res.broken and not res.violations:
         phase_e2e(res, [seed * 100000 + 50000 + i for i in range(256)])
         res.extra["search"] = "256 extra end-to-end partial-commit histories against the ghost oracle"
